@@ -129,6 +129,22 @@ func (cl *Cluster) onBlock(n *Node, rec *BlockRec) {
 		c.Violation("block-unknown-atropos", "block-unknown-atropos", "node %s: block with an Atropos that is not a known event", n.name)
 	}
 	at := cl.pool[rec.Atropos]
+	if cl.on["cheaters"] {
+		// a block handed to the application stays what it was: later blocks do not rewrite the list of an earlier one
+		for _, old := range n.blocks {
+			if len(old.kept) == 0 || old == rec {
+				continue
+			}
+			same := len(old.kept) == len(old.Cheaters)
+			for i := 0; same && i < len(old.kept); i++ {
+				same = uint32(old.kept[i]) == old.Cheaters[i]
+			}
+			if !same {
+				c.Violation("cheaters", "cheaters/retained-list-rewritten", "node %s: the cheater list of block epoch %d frame %d read %v when it was delivered; the same slice reads %v after block epoch %d frame %d was delivered", n.name, old.Epoch, old.Frame, old.Cheaters, old.kept, rec.Epoch, rec.Frame)
+			}
+			c.Probe("retained_cheater_list_rechecked")
+		}
+	}
 	if rec.Frame >= 256 {
 		c.Probe("block_of_frame_256_or_higher")
 	}
